@@ -8,7 +8,8 @@ It implements exactly what koreo and kr8s' APIObject need from an `api`:
     DELETE removes (404 if absent), GET reads;
   * every request is logged (`cluster.log`): method, plural, name, namespace argument, body;
   * `faults[i]` injects a fault at the i-th API call (0-based, GETs included):
-      "raise-before" | "raise-after" | 404 | 409 | 500 | "hang";
+      "raise-before" | "raise-after" | 404 | 409 | 500 | "hang" | any other HTTP status (403, 429, …) |
+      "no-response" (kr8s.ServerError without a response);
   * `latency(i, method, key)` (seconds, virtual) is slept before the call takes effect;
   * `decorate(obj)` is applied to whatever the server stores (server-side bookkeeping);
   * `lookups` records every `lookup_kind` discovery call; with `log_lookups = True` they also appear
@@ -145,6 +146,8 @@ class Cluster:
                 await asyncio.sleep(lat)
         if fault == "hang":
             await asyncio.Event().wait()
+        if fault == "no-response":     # a ServerError that carries no HTTP response at all (C09)
+            raise kr8s.ServerError("injected: no response", response=None)
         if fault == "raise-before":
             raise InjectedFault(f"injected before {method}")
         if isinstance(fault, int) and not (method == "GET" and fault == 404):
